@@ -1,36 +1,50 @@
 #!/bin/bash
-# Rebuild the checkers from /verif/vmc against /repo's current working tree (offline).
-#   build/vmc   plain build: /repo through a replace directive, nothing injected
-#   build/vmcx  overlay build (tag verif): adds zz_verif_export.go and the verifsync shim package to
-#               package utreexo and swaps mappollard.go's "sync" import for the shim (C12, C16)
+# Rebuild the checkers from /verif/vmc against the repository's current working tree (offline).
+#   build/vmc       plain build: the repository through a replace directive, nothing injected
+#   build/vmcx      overlay build (tag verif): adds zz_verif_export.go and the verifsync shim package to
+#                   package utreexo and swaps mappollard.go's "sync" import for the shim (C12, C16)
 #   build/vmcxrace  vmcx built with -race (C12's separate free-running race pass)
+# Maintenance: VERIF_REPO=<dir> builds against another checkout (e.g. a scratch worktree holding a
+# deliberately broken tree) and VERIF_BUILD=<dir> puts the binaries elsewhere; the registered checks
+# use the defaults /repo and /verif/build.
 set -eu
 cd /verif/vmc
 export GOFLAGS=-mod=mod GOPROXY=off GOSUMDB=off GOTOOLCHAIN=local
-mkdir -p /verif/build /verif/vmc/overlay/gen
-what=${1:-all}
-if [ "$what" = all ] || [ "$what" = vmc ]; then
-  go build -o /verif/build/vmc ./cmd/vmc
+REPO=${VERIF_REPO:-/repo}
+OUT=${VERIF_BUILD:-/verif/build}
+gen=/verif/vmc/overlay/gen
+MODFLAG=""
+mkdir -p "$OUT"
+if [ "$REPO" != /repo ]; then
+  gen=$OUT/gen
+  sed -e "s#=> /repo#=> $REPO#" go.mod > "$OUT/alt.mod"
+  cp go.sum "$OUT/alt.sum"
+  MODFLAG="-modfile=$OUT/alt.mod"
 fi
-if [ "$what" = all ] || [ "$what" = vmcx ]; then
-  gen=/verif/vmc/overlay/gen
-  sed -e 's#^\t"sync"$#\tsync "github.com/utreexo/utreexo/verifsync"#' /repo/mappollard.go > $gen/mappollard.go
+mkdir -p "$gen"
+what=${1:-all}
+genoverlay() {
+  sed -e 's#^\t"sync"$#\tsync "github.com/utreexo/utreexo/verifsync"#' "$REPO/mappollard.go" > $gen/mappollard.go
   if ! grep -q 'utreexo/verifsync' $gen/mappollard.go; then
-    echo "build.sh: could not rewrite the sync import of /repo/mappollard.go" >&2
+    echo "build.sh: could not rewrite the sync import of $REPO/mappollard.go" >&2
     exit 3
   fi
   cat > $gen/overlay.json <<JSON
 {"Replace": {
- "/repo/mappollard.go": "$gen/mappollard.go",
- "/repo/verifsync/vsync.go": "/verif/vmc/overlay/verifsync/vsync.go",
- "/repo/zz_verif_export.go": "/verif/vmc/overlay/zz_verif_export.go"
+ "$REPO/mappollard.go": "$gen/mappollard.go",
+ "$REPO/verifsync/vsync.go": "/verif/vmc/overlay/verifsync/vsync.go",
+ "$REPO/zz_verif_export.go": "/verif/vmc/overlay/zz_verif_export.go"
 }}
 JSON
-  go build -tags verif -overlay $gen/overlay.json -o /verif/build/vmcx ./cmd/vmc
+}
+if [ "$what" = all ] || [ "$what" = vmc ]; then
+  go build $MODFLAG -o "$OUT/vmc" ./cmd/vmc
+fi
+if [ "$what" = all ] || [ "$what" = vmcx ]; then
+  genoverlay
+  go build $MODFLAG -tags verif -overlay $gen/overlay.json -o "$OUT/vmcx" ./cmd/vmc
 fi
 if [ "$what" = all ] || [ "$what" = vmcxrace ]; then
-  # the same overlay build with the race detector, for C12's free-running pass
-  gen=/verif/vmc/overlay/gen
-  [ -f $gen/overlay.json ] || "$0" vmcx
-  go build -race -tags verif -overlay $gen/overlay.json -o /verif/build/vmcxrace ./cmd/vmc
+  genoverlay
+  go build $MODFLAG -race -tags verif -overlay $gen/overlay.json -o "$OUT/vmcxrace" ./cmd/vmc
 fi
